@@ -111,6 +111,8 @@ InitCase ==
   \* --- MATCH exact: key at every position, duplicated, absent
   \/ \E k \in 1..MaxCol : \E c \in [1..k -> V], key \in V \cup {Whole(5), Txt(<<122, 122>>)} :
         (k < 4 \/ Keep(c, key)) /\ case = C("MATCH", <<key, ColArr(c), Whole(0)>>)
+  \/ \E k \in 1..3 : \E c \in [1..k -> V3 \cup {Whole(10)}], key \in V3 \cup {Whole(10), Whole(5)} :     \* exact, the match type spelt FALSE
+        case = C("MATCH", <<key, ColArr(c), Bool(FALSE)>>)
   \/ \E k \in 1..3 : \E c \in [1..k -> KN], key \in KN : case = C("MATCH", <<key, ColArr(c), Whole(0)>>)
   \/ \E kc \in [1..2 -> KN], key \in KN, ci \in 1..2 : case = C("VLOOKUP", <<key, Table(kc, 2), Whole(ci), Bool(FALSE)>>)
   \/ \E c \in [1..2 -> KN], key \in KN : case = C("COUNTIF", <<ColArr(c), key>>)
